@@ -10,7 +10,7 @@ LEVEL = 'model_checking'
 DISTINCT_BY_SCENARIO = True  # the forwarding graph is part of the case
 RULE = ('ALL directed forwarding graphs with self-loops on 3 buses (512) x entry bus (3) [thorough: all 4096 loop-free-diagonal graphs on 4 buses, entry A], one pausing probe '
         'handler per bus; forwarding handlers registered after or before the probes; plus families with a second concurrent event from another entry and with the event '
-        'dispatched from inside a handler; all schedules <= L deviations. non-trivial = the event reached at least two buses or a forwarding handler was skipped; '
+        'dispatched from inside a handler; two routes to a bus whose first forward is rejected at its backlog limit; all schedules <= L deviations. non-trivial = the event reached at least two buses or a forwarding handler was skipped; '
         'distinct = distinct (graph, entry, recorder trace)')
 ASSUMPTIONS = ['reachability is computed by the harness from the scenario graph; enqueue order from the observed public dispatch calls']
 
@@ -112,6 +112,21 @@ def families(tier):
         for order in (ns, ns[::-1]):
             out.append(dict(prop='C07', family='c07.nested_chain', id=f'c07/nest-{mode}-{topo}-d{depth}-o{"".join(order)}', cfg=cfg2, params=dict(edges=edges, entry='A', chain=chain),
                             scn=dict(buses={b: {} for b in ns}, order=order, handlers=hs, main=[('disp', 'A', 'P', 'ff')], actors=[], forwards=edges, settle=3.0)))
+    # two routes to C (A->C direct, A->B->C).  A handler of the event on A first fills C up to its backlog limit, so the direct forward is REJECTED
+    # (an error result of that forwarding handler); a later handler on A waits for the backlog (processed inline), then A forwards to B and B to C:
+    # C is reachable and must still process the event exactly once, and event_path must list A, B, C in order of arrival
+    for nfill, drain_all, order in itertools.product((60, 50), (True, False), (names, names[::-1])):
+        edges = [('A', 'C'), ('A', 'B'), ('B', 'C')]
+        # (wildcard handlers run after the type-specific ones, in registration order: the two helpers are registered with '*' like the forwards)
+        hs = probes(names) + [dict(bus='A', pat='*', name='hfill', prog=[('burst', 'C', 'X', nfill)], kind='sync'),
+                              dict(bus='A', pat='*', name='hdrain', prog=[('await_all', 'X')] if drain_all else [('await_all', 'X', 2)]),
+                              dict(bus='C', pat='X', name='hxC', prog=[('ret', 0)], kind='sync')]
+        ix = {h['name']: i for i, h in enumerate(hs)}
+        reg = [('h', ix['hfill']), ('f', 'A', 'C'), ('h', ix['hdrain']), ('f', 'A', 'B'), ('h', ix['probeA']), ('h', ix['hqA']),
+               ('h', ix['probeB']), ('h', ix['hqB']), ('f', 'B', 'C'), ('h', ix['probeC']), ('h', ix['hqC']), ('h', ix['hxC'])]
+        out.append(dict(prop='C07', family='c07.second_route_after_rejection', id=f'c07/rej2nd-n{nfill}-d{int(drain_all)}-o{"".join(order)}', cfg=dict(cfg2, max_points=400),
+                        params=dict(edges=edges, entry='A', rejected_first=True, drain_all=drain_all),
+                        scn=dict(buses={b: {} for b in names}, order=order, handlers=hs, reg=reg, main=[('disp', 'A', 'P', 'ff')], actors=[], forwards=edges, settle=3.0, no_watch=True)))
     if deep:
         n4 = ['A', 'B', 'C', 'D']
         offdiag = [(i, j) for i in range(4) for j in range(4) if i != j]
